@@ -2314,19 +2314,29 @@ PREFIX (_translate) (region_type_t *region, int x, int y)
             pbox_out++;
 	}
 
-        if (pbox_out != pbox)
+        /* Some rectangle was dropped or clipped (the extents are partly out
+         * of range).  Clipping can leave no rectangle at all, or make
+         * vertically adjacent bands identical, so bring the region back to
+         * canonical form.
+         */
+        if (region->data->numRects == 0)
         {
-            if (region->data->numRects == 1)
-            {
-                region->extents = *PIXREGION_BOXPTR (region);
-                FREE_DATA (region);
-                region->data = (region_data_type_t *)NULL;
-	    }
-            else
-	    {
-		pixman_set_extents (region);
-	    }
-	}
+            region->extents.x2 = region->extents.x1;
+            region->extents.y2 = region->extents.y1;
+            FREE_DATA (region);
+            region->data = pixman_region_empty_data;
+        }
+        else if (region->data->numRects == 1)
+        {
+            region->extents = *PIXREGION_BOXPTR (region);
+            FREE_DATA (region);
+            region->data = (region_data_type_t *)NULL;
+        }
+        else
+        {
+            region->extents.x1 = region->extents.x2 = 0;
+            validate (region);
+        }
     }
 
     GOOD (region);
